@@ -144,14 +144,23 @@ func vf07Step(st vf07State, op vf07Op) (vf07State, string, string) {
 	representable := pages < (1 << 52) // pages*4096 fits in 64 bits
 	need := pages << 12
 
-	checkCalls := func(firstPage uint64, n int) string {
-		if len(calls) != n {
+	// checkCalls: the pages mapped are pairs (firstPage+i -> op.Frame+i) with the requested flags, each at most once, in
+	// whatever order the implementation maps them; all n of them when complete, any subset of them when the map seam
+	// failed part-way.
+	checkCalls := func(firstPage uint64, n int, complete bool) string {
+		if complete && len(calls) != n {
 			return fmt.Sprintf("%d pages mapped, expected %d", len(calls), n)
 		}
+		seen := map[uint64]bool{}
 		for i, c := range calls {
-			if uint64(c.page) != firstPage+uint64(i) || uint64(c.frame) != op.Frame+uint64(i) || c.flags != flags {
-				return fmt.Sprintf("call %d mapped page %#x -> frame %#x flags %#x, expected page %#x -> frame %#x flags %#x", i, uint64(c.page), uint64(c.frame), uint64(c.flags), firstPage+uint64(i), op.Frame+uint64(i), uint64(flags))
+			k := uint64(c.page) - firstPage
+			if uint64(c.page) < firstPage || k >= uint64(n) || uint64(c.frame) != op.Frame+k || c.flags != flags {
+				return fmt.Sprintf("call %d mapped page %#x -> frame %#x flags %#x, which is not one of the pairs page %#x+i -> frame %#x+i (i < %d) flags %#x", i, uint64(c.page), uint64(c.frame), uint64(c.flags), firstPage, op.Frame, n, uint64(flags))
 			}
+			if seen[k] {
+				return fmt.Sprintf("page %#x mapped twice", uint64(c.page))
+			}
+			seen[k] = true
 		}
 		return ""
 	}
@@ -178,7 +187,7 @@ func vf07Step(st vf07State, op vf07Op) (vf07State, string, string) {
 			if len(calls) == 0 {
 				return next, "env", "injected error without a call"
 			}
-			region = uint64(calls[0].page) << 12
+			region = next.Cursor // the reservation was made before the first page was mapped
 		}
 		if !representable {
 			return next, "wrapped-size", fmt.Sprintf("%s(size=%#x) succeeded (region %#x) although rounding the size up to whole pages does not fit in the address space", op.Kind, op.Size, region)
@@ -201,14 +210,13 @@ func vf07Step(st vf07State, op vf07Op) (vf07State, string, string) {
 		if op.Kind == "mapregion" {
 			want := int(pages)
 			if err == vf07InjErr {
-				want = len(calls) // prefix only
-				if uint64(want) > pages {
-					return next, "mapped-too-many", fmt.Sprintf("mapregion(size=%#x) mapped %d pages, only %d needed", op.Size, want, pages)
+				if uint64(len(calls)) > pages {
+					return next, "mapped-too-many", fmt.Sprintf("mapregion(size=%#x) mapped %d pages, only %d needed", op.Size, len(calls), pages)
 				}
 			} else if pages >= vf07MapCap {
 				return next, "mapped-too-few", fmt.Sprintf("mapregion(size=%#x) reported success after %d of %d pages", op.Size, len(calls), pages)
 			}
-			if msg := checkCalls(region>>12, want); msg != "" {
+			if msg := checkCalls(region>>12, want, err == nil && pages < vf07MapCap); msg != "" {
 				return next, "wrong-mapping", fmt.Sprintf("mapregion(frame=%#x,size=%#x): %s", op.Frame, op.Size, msg)
 			}
 			if err == nil && op.FailAt != 0 && uint64(op.FailAt) <= pages {
@@ -233,9 +241,8 @@ func vf07Step(st vf07State, op vf07Op) (vf07State, string, string) {
 		}
 		want := int(pages)
 		if err == vf07InjErr {
-			want = len(calls)
-			if uint64(want) > pages {
-				return next, "mapped-too-many", fmt.Sprintf("identity(size=%#x) mapped %d pages, only %d needed", op.Size, want, pages)
+			if uint64(len(calls)) > pages {
+				return next, "mapped-too-many", fmt.Sprintf("identity(size=%#x) mapped %d pages, only %d needed", op.Size, len(calls), pages)
 			}
 		} else {
 			if pages >= vf07MapCap {
@@ -248,7 +255,7 @@ func vf07Step(st vf07State, op vf07Op) (vf07State, string, string) {
 				return next, "error-swallowed", fmt.Sprintf("identity(size=%#x): map error at call %d not returned", op.Size, op.FailAt)
 			}
 		}
-		if msg := checkCalls(op.Frame, want); msg != "" {
+		if msg := checkCalls(op.Frame, want, err == nil); msg != "" {
 			return next, "wrong-mapping", fmt.Sprintf("identity(frame=%#x,size=%#x): %s", op.Frame, op.Size, msg)
 		}
 	}
